@@ -61,3 +61,16 @@ SHARDS.update({
     "urwid/canvas.py:CanvasCache.invalidate": (4, 3),
     "urwid/widget/edit.py:Edit.keypress": (6, 5),
 })
+
+# A contract written for one property also serves the others whose statement depends on the same function
+# (the check of each listed property verifies it too).  Keys are registry keys or "module:<contract module>".
+ALSO_SERVES = {
+    "C08": ["module:contracts.C16_focuslist"],      # container contents are MonitoredFocusLists: focus validity after edits
+    "C12": ["urwid/display/_raw_display_base.py:Screen.parse_input", "urwid/display/_raw_display_base.py:Screen.get_available_raw_input"],
+    "C01": ["urwid/widget/scrollable.py:Scrollable.render", "urwid/widget/scrollable.py:Scrollable._adjust_trim_top", "urwid/widget/scrollable.py:ScrollBar.render"],
+    "C07": ["module:contracts.C08_listbox"],        # ListBox focus handling
+    "C06": ["urwid/canvas.py:CompositeCanvas.trim#real-fields", "urwid/canvas.py:CompositeCanvas.trim_end#real-fields"],
+    "C17": ["urwid/display/common.py:AttrSpec.__init__", "urwid/display/common.py:AttrSpec.__set_background"],
+    "C03": ["urwid/util.py:calc_trim_text", "urwid/str_util.py:calc_text_pos", "urwid/str_util.py:calc_width"],
+    "C04": ["urwid/util.py:calc_trim_text"],
+}
